@@ -1,5 +1,6 @@
 import SeqIoModel.Proofs.FastaStream
 import SeqIoModel.Proofs.FastqStream
+import SeqIoModel.Proofs.Display
 /-!
 # C17 – parse errors pinpoint the offending record
 
@@ -34,5 +35,28 @@ theorem fastq_error_is_specs (inp : List UInt8) (cap : Nat) (hcap : 3 ≤ cap) (
 example : Fasta.specObs [13, 10, 10, 65, 10] = [.error (.invalidStart 3 65)] := by decide
 example : Fastq.specObs [64, 97, 32, 98, 10, 65, 10, 45, 10, 73, 10] =
     [.error (.invalidSep 45 { line := 3, id := some [97] })] := by decide
+
+/-- the human-readable message contains the reported values: FASTA line and found byte -/
+theorem fasta_message_contains (line : Nat) (found : UInt8) :
+    DisplayProofs.isInfix (Fmt.dec line) (Fmt.fastaErr (.invalidStart line found)) ∧
+    DisplayProofs.isInfix (Fmt.escapeDefault found) (Fmt.fastaErr (.invalidStart line found)) :=
+  DisplayProofs.fasta_msg_contains line found
+
+/-- FASTQ: "line N" for the error's position -/
+theorem fastq_message_contains_line (e : Fastq.Err) (p : Fastq.ErrPos) (he : DisplayProofs.errPosOf e = some p) :
+    DisplayProofs.isInfix (Fmt.str "line " ++ Fmt.dec p.line) (Fmt.fastqErr e) :=
+  DisplayProofs.fastq_msg_contains_line e p he
+
+/-- FASTQ: both lengths -/
+theorem fastq_message_contains_lengths (s q : Nat) (p : Fastq.ErrPos) :
+    DisplayProofs.isInfix (Fmt.dec s) (Fmt.fastqErr (.unequalLengths s q p)) ∧
+    DisplayProofs.isInfix (Fmt.dec q) (Fmt.fastqErr (.unequalLengths s q p)) :=
+  DisplayProofs.fastq_msg_contains_lengths s q p
+
+/-- FASTQ: the byte actually found -/
+theorem fastq_message_contains_found (f : UInt8) (p : Fastq.ErrPos) :
+    DisplayProofs.isInfix (Fmt.escapeDefault f) (Fmt.fastqErr (.invalidStart f p)) ∧
+    DisplayProofs.isInfix (Fmt.escapeDefault f) (Fmt.fastqErr (.invalidSep f p)) :=
+  DisplayProofs.fastq_msg_contains_found f p
 
 end SeqIo.Thm.C17
